@@ -29,7 +29,7 @@ package api
 //@   modifies gPrepN, gPrepRecv, gChkN, gChkRecv, gChkRes, gChkBlocked, gPassN, gPassRecv, gBlkN, gBlkRecv, gBlkErr, gCompN, gCompRecv, gHandlerN, gAdded, gConc, allfields(base.EntryContext), allfields(base.SentinelInput), allfields(base.TokenResult)
 //@   ensures[args-not-shared-with-options]{C01,C06} e != nil && e.ctx != nil && len(e.ctx.Input.Args) > 0 ==> base(e.ctx.Input.Args) != base(options.args)
 //@   witness nothing = 0
-//@   replay api_panicking_slot
+//@   replay api_panicking_slot for passed-is-counted-after-contained-panic
 //@   replay api_args_alias for args-not-shared
 //@   ensures[entry-carries-request] e != nil && sc != nil ==> fresh(e) && e.ctx != nil && e.ctx.entry == e && e.sc == sc && e.ctx.Input.BatchCount == options.batchCount && e.ctx.Resource != nil && e.ctx.Resource.name == resource && e.ctx.Resource.flowType == options.entryType
 
